@@ -148,7 +148,7 @@ def build_filreader(R=None, st=None):
     from sigpyproc import readers
     st = st or build_fileio(R)
     sub = dict(np=NPfile, allocate_buffer=st["allocate_buffer"], track=passthrough_track, memoryview=MV, bytearray=SymBuf,
-               int=s_int, min=s_min, max=s_max, FilterbankBlock=RecBlock, FileReader=st["FileReader"])
+               int=s_int, min=s_min, max=s_max, len=s_len, FilterbankBlock=RecBlock, FileReader=st["FileReader"])
     RF = rebind_class(readers.FilReader, sub, name="RFilReader")
     if R is not None:
         R.encode(readers.FilReader.read_plan, readers.FilReader.read_block, readers.FilReader.__dict__["chan_stride"],
